@@ -241,6 +241,36 @@ fn f() { let mut t = ThinArc::from_header_and_slice(0u8, &[1u8, 2]);
     });
 }
 """)
+
+lt("mut_ref_escape", "the &mut handed out by get_mut/make_mut/get_unique/make_unique/deref_mut cannot outlive the handle", """
+fn use_it<T: ?Sized>(_: &T) {}
+fn get_mut() { let r: &mut u32; { let mut a = Arc::new(1u32);
+    r = Arc::get_mut(&mut a).unwrap(); //~ E0597 | r = Box::leak(Box::new(1u32));
+    } use_it(r); }
+fn make_mut() { let r: &mut u32; { let mut a = Arc::new(1u32);
+    r = Arc::make_mut(&mut a); //~ E0597 | r = Box::leak(Box::new(1u32));
+    } use_it(r); }
+fn make_unique() { let r: &mut UniqueArc<u32>; { let mut a = Arc::new(1u32);
+    r = Arc::make_unique(&mut a); //~ E0597 | r = Box::leak(Box::new(UniqueArc::new(1u32)));
+    } use_it(&**r); }
+fn unique_deref_mut() { let r: &mut u32; { let mut a = UniqueArc::new(1u32);
+    r = &mut *a; //~ E0597 | r = Box::leak(Box::new(1u32));
+    } use_it(r); }
+fn offset_make_mut() { let r: &mut u32; { let mut a = Arc::into_raw_offset(Arc::new(1u32));
+    r = a.make_mut(); //~ E0597 | r = Box::leak(Box::new(1u32));
+    } use_it(r); }
+""")
+lt("copied_borrow_escape", "ArcBorrow is Copy, but a copy is still tied to the handle it was borrowed from", """
+fn copy_of_borrow() { let b2; { let a = Arc::new(1u32);
+    b2 = { let b = a.borrow_arc(); let c = b; let _ = b; c }; //~ E0597 | b2 = (); let _ = &a;
+    } let _ = &b2; drop(b2); }
+fn with_arc_returns_inner_ref() -> usize { let t = ThinArc::from_header_and_slice(0u8, &[1u8, 2]);
+    let s: &[u8] = t.with_arc(|a| &a.slice[..]); //~ LIFETIME | let s: &[u8] = &[];
+    s.len() }
+fn union_borrow_payload() { let r: &u32; { let u: ArcUnion<u32, u64> = ArcUnion::from_first(Arc::new(1u32));
+    r = match u.borrow() { ArcUnionBorrow::First(b) => b.get(), ArcUnionBorrow::Second(_) => &0 }; //~ E0597 | r = &0; let _ = &u;
+    } let _ = *r; }
+""")
 DROPCK = """
 struct P<'a>(&'a String);
 impl<'a> Drop for P<'a> { fn drop(&mut self) { let _ = self.0.len(); } }
